@@ -102,7 +102,7 @@ CHECKS["C19"] = dict(
          "subscriber holds the message exactly once, the next message reaches all five; last round: the slow subscriber closes instead (pruned, four counted). "
          "Slow consumers in Lean: PSS (Conc/PubSubSlow.lean) gives every connection a state ready | stalled | dead; Send's write to a stalled connection is no step (the sender holds the channel lock). "
          "PSS.healthy_not_affected (every member gets every message published on its channel object since it joined once, in order, whatever the environment does to the others), "
-         "PSS.removed_only_dead_or_unsubscribed, PSS.stall_only_delays_partial (fair schedule => the Send completes, reply = its deliveries), PSS.confirm_after_join; negative: "
+         "PSS.removed_only_dead_or_unsubscribed, PSS.stall_only_delays (every stall ends + strongly fair scheduler => every invoked operation completes, reply = its deliveries), PSS.confirm_after_join; negative: "
          "PSS.never_block_publishers_needs_fairness_partial (a subscriber that never reads again blocks its channel and, through Subscribe's table lock, all channels: true of the code), "
          "PSS.confirm_before_join_misses. Tie: the history the pubsub-stall scenario observed (stall / resume / close, PUBLISH written / answered, holdings) is replayed on the model by the driver (engine PSH); "
          "eight negative controls.",
